@@ -605,6 +605,11 @@ def t_templates(tier):
     T.append(("def tfun(a: Qfixed[{i}, {f}]) -> Qfixed[{i}, {f}]:\n    return float(a)\n", {"i": ["1", "2"], "f": ["2"]}))
     T.append(("def tfun(a: Qint[2]) -> Qfixed[2, {f}]:\n    return float(a)\n", {"f": ["2", "3"]}))
     T.append(("def tfun(a: Qint[2]) -> Qint[2]:\n    return int(a)\n", {}))
+    # locals whose names merely contain "_ret" (how a symbol is treated must depend on its role, not on a substring of its name)
+    for v in ("no_retry", "is_ret", "x_ret"):
+        T.append(("def tfun(a: bool, b: bool, c: bool, d: bool) -> bool:\n    %s = {e}\n    return {r}\n" % v,
+                  {"e": ["a and b and c", "a ^ b", "a or b or c"], "r": ["not (%s and d)" % v, "%s or d" % v, "(%s ^ d) and a" % v]}))
+    T.append(("def tfun(a: Qint[2], b: Qint[2]) -> Qint[2]:\n    my_ret = a + b\n    return my_ret ^ a\n", {}))
     # wide integer parts (3 and 4 bits): every value is a row, so every integer part >= 6 is encoded and decoded
     T.append(("def tfun(a: Qfixed[{i}]) -> Qfixed[{i}]:\n    return {e}\n", {"i": ["3, 3", "4, 4"], "e": ["a", "a + 0.5", "a + a"]}))
     T.append(("def tfun(a: Qfixed[{i}]) -> bool:\n    return a {c} {k}\n", {"i": ["3, 3", "4, 4"], "c": [">", "==", "<="], "k": ["0.5", "5.5", "6.5", "7.0"]}))
